@@ -40,6 +40,12 @@ type readProg struct {
 	mode  string // none some all allplus
 	k     int
 	extra int
+	// what a handler reading to the end (all, allplus) does when a read fails:
+	// "" it returns the error; "stop" it gives up and returns nil; "more" it
+	// keeps reading for a while and then returns nil.  The stream may end there
+	// with an error or go on, but if it goes on, then with the next top-level
+	// element.
+	swallow string
 }
 
 type item struct {
@@ -155,6 +161,9 @@ func genProg(t *rapid.T) readProg {
 	}
 	if p.mode == "allplus" {
 		p.extra = rapid.IntRange(1, 3).Draw(t, "extra")
+	}
+	if p.mode == "all" || p.mode == "allplus" {
+		p.swallow = rapid.SampledFrom([]string{"", "", "stop", "more"}).Draw(t, "swallow")
 	}
 	return p
 }
@@ -276,7 +285,7 @@ func (tc tcase) String() string {
 	fmt.Fprintf(&sb, "s2s=%v local=%s (session created as %q, negotiated=%q) output-closed-first=%v own-request-outstanding(caller reads %q of the response)=%v input=%q progs=[", tc.s2s, tc.local, tc.origin.String(), tc.negotiated, tc.outputClosed, tc.respRead, tc.respRead != "", tc.input())
 	for _, it := range tc.items {
 		if it.kind == "elem" {
-			fmt.Fprintf(&sb, "%s:%d:%d ", it.prog.mode, it.prog.k, it.prog.extra)
+			fmt.Fprintf(&sb, "%s:%d:%d%s ", it.prog.mode, it.prog.k, it.prog.extra, map[string]string{"": "", "stop": ":read-error-ignored", "more": ":reads-on-after-a-read-error"}[it.prog.swallow])
 		}
 	}
 	sb.WriteString("]")
@@ -291,6 +300,7 @@ type invocation struct {
 	errs     []string
 	afterEOF []string // result of reads after the first io.EOF
 	sawEOF   bool
+	afterErr []xml.Token // tokens read after a read error the handler ignored
 }
 
 type recorder struct {
@@ -341,6 +351,21 @@ func (r *recorder) HandleXMPP(t xmlstream.TokenReadEncoder, start *xml.StartElem
 		}
 		if err != nil {
 			iv.errs = append(iv.errs, err.Error())
+			switch prog.swallow {
+			case "stop":
+				return nil
+			case "more":
+				for n := 0; n < 40; n++ {
+					tok, err := t.Token()
+					if tok != nil {
+						iv.afterErr = append(iv.afterErr, xml.CopyToken(tok))
+					}
+					if err != nil {
+						break
+					}
+				}
+				return nil
+			}
 			return err // handlers propagate read errors
 		}
 	}
@@ -468,6 +493,8 @@ func check(t interface {
 	responseServed := false // the response was reached before the stream ended
 	end := "eof"            // eof | close | streamerr | error
 	var wantErr *construct
+	var stops []int // numbers of invocations after which the stream may have ended with an error
+	var respAtStop []bool
 loop:
 	for _, it := range tc.items {
 		switch it.kind {
@@ -477,6 +504,12 @@ loop:
 		case "elem":
 			want = append(want, exp{it.node, it.bad})
 			if it.bad != nil {
+				if it.prog.swallow != "" && it.bad.kind != "malformed" {
+					// the handler meets the read error itself and ignores it
+					stops = append(stops, len(want))
+					respAtStop = append(respAtStop, responseServed)
+					continue
+				}
 				end = "error"
 				break loop
 			}
@@ -493,6 +526,16 @@ loop:
 		}
 	}
 
+	if serveErr != nil {
+		for k, sp := range stops {
+			if len(rec.inv) == sp {
+				want = want[:sp]
+				end = "error"
+				responseServed = respAtStop[k]
+				break
+			}
+		}
+	}
 	if tc.respRead != "" {
 		if responseServed && !gotResp {
 			fail("the answer to the application's own request arrived (before anything that ends the stream) but SendIQ did not get it")
@@ -533,7 +576,7 @@ loop:
 		if got, wantc := startCanon(iv.start), startCanon(ws); got != wantc {
 			fail("invocation %d: start element %s, expected %s", i, got, wantc)
 		}
-		for _, tok := range iv.toks {
+		for _, tok := range append(append([]xml.Token{}, iv.toks...), iv.afterErr...) {
 			if f := forbiddenToken(tok); f != "" {
 				fail("invocation %d: handler observed a %s", i, f)
 			}
@@ -635,6 +678,9 @@ func classify(tc tcase) (nontrivial bool, classes []string) {
 			if it.bad != nil {
 				nested++
 				classes = append(classes, "nested-"+it.bad.kind)
+				if it.prog.swallow != "" {
+					classes = append(classes, "nested-construct-read-error-ignored-by-handler")
+				}
 			}
 		case "construct":
 			classes = append(classes, "top-"+it.bad.kind)
